@@ -57,7 +57,7 @@ theorem ls_normal_row (n K : ℕ) (Q Ru A : ℕ → ℕ → α)
 /-! ### `solve_col` with pivots below the threshold -/
 
 /-- `get_R()` with the rows of the skipped pivots zeroed -/
-def getRt (s : LMQR α) (tol : α) (i k : ℕ) : α := if |s.getR i i| < tol then 0 else s.getR i k
+def getRt (s : LMQR α) (tol : α) (i k : ℕ) : α := if |s.getR i i| ≤ tol then 0 else s.getR i k
 
 /-- The **deflated window** `A' = Q · getRt`: `A` with the component along `q_r` removed from every
     column, for every pivot `r` that `solve_col(·, ·, tol)` skips
@@ -66,7 +66,7 @@ def deflated (s : LMQR α) (tol : α) (k j : ℕ) : α :=
   ∑ i ∈ range s.qIdx, s.Q.get j i * getRt s tol i k
 
 theorem deflated_eq_of_no_trunc (s : LMQR α) (tol : α) (A : ℕ → ℕ → α) (hA : Represents s A)
-    (hp : ∀ r < s.qIdx, ¬ |s.getR r r| < tol) {k j : ℕ} (hk : k < s.qIdx) (hj : j < s.n) :
+    (hp : ∀ r < s.qIdx, ¬ |s.getR r r| ≤ tol) {k j : ℕ} (hk : k < s.qIdx) (hj : j < s.n) :
     deflated s tol k j = A k j := by
   rw [← hA k hk j hj]
   unfold deflated colSum
@@ -79,7 +79,7 @@ theorem deflated_eq_of_no_trunc (s : LMQR α) (tol : α) (A : ℕ → ℕ → α
 theorem deflated_eq_sub (s : LMQR α) (tol : α) (A : ℕ → ℕ → α) (hA : Represents s A)
     {k j : ℕ} (hk : k < s.qIdx) (hj : j < s.n) :
     deflated s tol k j =
-      A k j - ∑ i ∈ range s.qIdx, (if |s.getR i i| < tol then s.Q.get j i * s.getR i k else 0) := by
+      A k j - ∑ i ∈ range s.qIdx, (if |s.getR i i| ≤ tol then s.Q.get j i * s.getR i k else 0) := by
   rw [← hA k hk j hj]
   unfold deflated colSum
   rw [← Finset.sum_sub_distrib]
@@ -96,9 +96,9 @@ theorem deflated_eq_sub (s : LMQR α) (tol : α) (A : ℕ → ℕ → α) (hA : 
     3. `x` is a least-squares minimiser of `‖A' z − b‖` for the deflated window `A'`. -/
 theorem solveCol_truncated (s : LMQR α) (h : RingInv s) (A : ℕ → ℕ → α) (hA : Represents s A)
     (hO : Orth s) (b x0 : ℕ → α) (tol : α)
-    (hnz : ∀ r < s.qIdx, ¬ |s.getR r r| < tol → s.getR r r ≠ 0) :
-    (∀ r < s.qIdx, |s.getR r r| < tol → s.solveCol b x0 tol r = 0) ∧
-    (∀ r < s.qIdx, ¬ |s.getR r r| < tol →
+    (hnz : ∀ r < s.qIdx, ¬ |s.getR r r| ≤ tol → s.getR r r ≠ 0) :
+    (∀ r < s.qIdx, |s.getR r r| ≤ tol → s.solveCol b x0 tol r = 0) ∧
+    (∀ r < s.qIdx, ¬ |s.getR r r| ≤ tol →
       ∑ j ∈ range s.n, s.Q.get j r * (∑ k ∈ range s.qIdx, A k j * s.solveCol b x0 tol k - b j) = 0) ∧
     ∀ z : ℕ → α,
       ∑ j ∈ range s.n, (∑ k ∈ range s.qIdx, deflated s tol k j * s.solveCol b x0 tol k - b j) ^ 2 ≤
@@ -122,7 +122,7 @@ theorem solveCol_truncated (s : LMQR α) (h : RingInv s) (A : ℕ → ℕ → α
     intro i hi
     rw [Finset.mem_range] at hi
     rw [← Finset.mul_sum]
-    by_cases ht : |s.getR i i| < tol
+    by_cases ht : |s.getR i i| ≤ tol
     · unfold getRt; rw [if_pos ht, zero_mul]
     · rw [ls_normal_row s.n s.qIdx s.Q.get (getRt s tol) (deflated s tol) (fun k _ j _ => rfl) hO b _ hi]
       have e : ∑ k ∈ range s.qIdx, getRt s tol i k * s.solveCol b x0 tol k =
@@ -133,17 +133,17 @@ theorem solveCol_truncated (s : LMQR α) (h : RingInv s) (A : ℕ → ℕ → α
 /-- … and it is the **only** vector with properties 1 and 2 (on the `q_idx` entries `solve_col` writes). -/
 theorem solveCol_truncated_unique (s : LMQR α) (h : RingInv s) (A : ℕ → ℕ → α) (hA : Represents s A)
     (hO : Orth s) (b x0 : ℕ → α) (tol : α)
-    (hnz : ∀ r < s.qIdx, ¬ |s.getR r r| < tol → s.getR r r ≠ 0) (z : ℕ → α)
-    (hz0 : ∀ r < s.qIdx, |s.getR r r| < tol → z r = 0)
-    (hz1 : ∀ r < s.qIdx, ¬ |s.getR r r| < tol →
+    (hnz : ∀ r < s.qIdx, ¬ |s.getR r r| ≤ tol → s.getR r r ≠ 0) (z : ℕ → α)
+    (hz0 : ∀ r < s.qIdx, |s.getR r r| ≤ tol → z r = 0)
+    (hz1 : ∀ r < s.qIdx, ¬ |s.getR r r| ≤ tol →
       ∑ j ∈ range s.n, s.Q.get j r * (∑ k ∈ range s.qIdx, A k j * z k - b j) = 0) :
     ∀ k < s.qIdx, z k = s.solveCol b x0 tol k := by
   obtain ⟨hx0, hx1, _⟩ := solveCol_truncated s h A hA hO b x0 tol hnz
   -- M = R with the skipped rows replaced by unit rows
   have key := upper_tri_inj s.qIdx
-    (fun i k => if |s.getR i i| < tol then (if i = k then 1 else 0) else s.getR i k)
+    (fun i k => if |s.getR i i| ≤ tol then (if i = k then 1 else 0) else s.getR i k)
     (fun r hr => by
-      by_cases ht : |s.getR r r| < tol
+      by_cases ht : |s.getR r r| ≤ tol
       · rw [if_pos ht, if_pos rfl]; exact one_ne_zero
       · rw [if_neg ht]; exact hnz r hr ht)
     (fun i k hik => by
@@ -153,7 +153,7 @@ theorem solveCol_truncated_unique (s : LMQR α) (h : RingInv s) (A : ℕ → ℕ
       · exact getR_upper s hik)
     (fun k => z k - s.solveCol b x0 tol k)
     (fun r hr => by
-      by_cases ht : |s.getR r r| < tol
+      by_cases ht : |s.getR r r| ≤ tol
       · simp only [ht, if_true]
         rw [Finset.sum_eq_single r]
         · rw [if_pos rfl, hz0 r hr ht, hx0 r hr ht]; ring
